@@ -243,7 +243,11 @@ func (t *guardTr) normExpr(e ast.Expr) string {
 		return t.normExpr(x.Fun) + "(" + strings.Join(args, ",") + ")"
 	case *ast.IndexExpr:
 		if t.v2 {
-			return t.normExpr(x.X) + "[" + t.normExpr(x.Index) + "]"
+			xs, ix := t.normExpr(x.X), t.normExpr(x.Index)
+			if ix == "idx("+xs+")" {
+				return "elem(" + xs + ")"
+			}
+			return xs + "[" + ix + "]"
 		}
 	}
 	return strings.ReplaceAll(normSrc(t.p.str(e)), " ", "")
@@ -342,6 +346,9 @@ func (t *guardTr) inlineHelper(fd *ast.FuncDecl, c *ast.CallExpr) string {
 func (t *guardTr) callActs(e ast.Expr) []string {
 	if c, ok := e.(*ast.CallExpr); ok {
 		if name, ok := t.isLocalCall(c); ok {
+			if t.v2 && t.cfg != nil && inList(t.cfg.pure, name) {
+				return nil
+			}
 			if fd := t.helperDecl(c, name); fd != nil {
 				return []string{".scope \"\" " + t.inlineHelper(fd, c)}
 			}
@@ -503,9 +510,24 @@ func (t *guardTr) stmt(s ast.Stmt) []string {
 			out = append(out, ".opaque \"next iteration\"")
 			return []string{fmt.Sprintf(".ifThen (%s) [%s]", t.cond(s.Cond), strings.Join(out, ", "))}
 		}
+		if t.v2 {
+			// `for i := 0; i < len(xs); i++ { … xs[i] … }` is `for _, x := range xs`
+			if xs, iv, ok := indexLoop(s); ok {
+				t.defs[iv] = "idx(" + t.normExpr(xs) + ")"
+				var out []string
+				for _, x := range s.Body.List {
+					out = append(out, t.stmt(x)...)
+				}
+				out = append(out, ".opaque \"next iteration\"")
+				return []string{fmt.Sprintf(".ifThen (.v %s) [%s]", leanStr("more("+t.normExpr(xs)+")"), strings.Join(out, ", "))}
+			}
+		}
 		return []string{".opaque \"loop\""}
 	case *ast.RangeStmt:
 		if t.v2 {
+			if id, ok := s.Value.(*ast.Ident); ok && id.Name != "_" {
+				t.defs[id.Name] = "elem(" + t.normExpr(s.X) + ")"
+			}
 			// one unrolling: if there is a further element the body runs for it, and falling off its end is the next iteration
 			var out []string
 			for _, x := range s.Body.List {
@@ -632,4 +654,37 @@ func genGuards(p *pkgSrc) (string, error) {
 	}
 	sb.WriteString("end WS.Gen.Guards\n")
 	return sb.String(), nil
+}
+
+// indexLoop recognises `for i := 0; i < len(xs); i++`.
+func indexLoop(s *ast.ForStmt) (ast.Expr, string, bool) {
+	as, ok := s.Init.(*ast.AssignStmt)
+	if !ok || len(as.Lhs) != 1 || len(as.Rhs) != 1 {
+		return nil, "", false
+	}
+	iv, ok := as.Lhs[0].(*ast.Ident)
+	if !ok {
+		return nil, "", false
+	}
+	if bl, ok := as.Rhs[0].(*ast.BasicLit); !ok || bl.Value != "0" {
+		return nil, "", false
+	}
+	c, ok := s.Cond.(*ast.BinaryExpr)
+	if !ok || c.Op != token.LSS {
+		return nil, "", false
+	}
+	if id, ok := c.X.(*ast.Ident); !ok || id.Name != iv.Name {
+		return nil, "", false
+	}
+	call, ok := c.Y.(*ast.CallExpr)
+	if !ok || len(call.Args) != 1 {
+		return nil, "", false
+	}
+	if f, ok := call.Fun.(*ast.Ident); !ok || f.Name != "len" {
+		return nil, "", false
+	}
+	if inc, ok := s.Post.(*ast.IncDecStmt); !ok || inc.Tok != token.INC {
+		return nil, "", false
+	}
+	return call.Args[0], iv.Name, true
 }
